@@ -1104,6 +1104,12 @@ class Generator:
         if not cands:
             return None
         by = self.rng.sample(cands, self.rng.randint(1, min(2, len(cands))))
+        # generator exclusion (known finding KF-C10-sort-null-keys): sort keys never contain nulls
+        try:
+            if any(bool(self.pool[m.id][c_].isna().any().compute()) for c_ in by):
+                return None
+        except Exception:
+            return None
         op = {"op": "sort_values", "src": m.id, "by": by, "ascending": self.rng.random() < 0.7}
         self._kn(op, ["shuffle_method", "sort_npartitions", "upsample"])
         return self.try_add(op, "open", m.labels, self.next_id, m.index_kind)
@@ -1339,7 +1345,11 @@ class Generator:
             op["sort"] = False
         if self.rng.random() < 0.15:
             op["dropna"] = False
-        self._kn(op, ["split_out", "split_every", "shuffle_method"])
+        names = ["split_out", "split_every", "shuffle_method"]
+        if op.get("fn") == "size" or op.get("observed") is False:
+            # known findings KF-C10-size-name / KF-C10-cat-unobserved (probed under C10): no split_out here
+            names = ["split_every", "shuffle_method"]
+        self._kn(op, names)
         return self.try_add(op, "open", "defined", self.next_id, None)
 
     def g_groupby_udf(self):
